@@ -21,14 +21,21 @@ def prop(pid, **kw):
     PROPS[pid] = kw
 
 
-def harness(name, props, kind, what, tier='quick', bound='none', args=(), timeout=900):
-    HARNESSES.append(dict(name=name, props=props, kind=kind, what=what, tier=tier, bound=bound, args=list(args), timeout=timeout))
+def harness(name, props, kind, what, tier='quick', bound='none', args=(), timeout=900, heavy=False):
+    HARNESSES.append(dict(name=name, props=props, kind=kind, what=what, tier=tier, bound=bound, args=list(args), timeout=timeout, heavy=heavy))
 
 
-_BUILT = ['C01', 'C02', 'C03', 'C04', 'C07']
+_BUILT = ['C01', 'C02', 'C03', 'C04', 'C07', 'C15']
 for _p in ['C01', 'C02', 'C03', 'C04', 'C05', 'C06', 'C07', 'C08', 'C09', 'C10', 'C11', 'C12', 'C13', 'C14', 'C15', 'C16', 'C17']:
     if _p in _BUILT:
         prop(_p, level='proof', level_text='Verus discharges the contracts of the real functions serving this property for all inputs (under construction: unit list grows)',
              level_note='trusted: Verus/Z3, vx primitives standing for unsafe idioms, weaver rewrite table')
     else:
         prop(_p, level='proof', not_applicable='check under construction in this session (see DESIGN.md section 3 for the plan)')
+
+
+# ---- C15: bounded integer newtypes, complete domain -------------------------------------------------
+for _n, _t in [('c15_vlan_id', 'VlanId'), ('c15_vlan_pcp', 'VlanPcp'), ('c15_ip_dscp', 'IpDscp'), ('c15_ip_ecn', 'IpEcn'),
+               ('c15_ip_frag_offset', 'IpFragOffset'), ('c15_ipv6_flow_label', 'Ipv6FlowLabel'), ('c15_macsec_an', 'MacsecAn'),
+               ('c15_macsec_short_len', 'MacsecShortLen'), ('c15_igmp_qrv', 'igmp::Qrv')]:
+    harness('h_newtypes::' + _n, ['C15'], 'complete (loop-free, full input domain)', '%s::try_new / TryFrom / From: accept set == values that fit, value preserved, error fields' % _t)
